@@ -182,11 +182,78 @@ fn corpus(rep: &mut Report, reqs: &mut Vec<String>, impl_out: &mut Vec<String>, 
     }
 }
 
+/// named matcher of the known finding C04-lcov2-fn-end-line: the tracefile contains an FN record
+/// whose second field is all digits followed by a comma (`FN:<start>,<end>,<name>`, lcov 2.x)
+pub fn has_fn_with_end_line(bytes: &[u8]) -> bool {
+    bytes.split(|&c| c == b'\n').any(|l| {
+        let Some(rest) = l.strip_prefix(b"FN:") else { return false };
+        let mut fields = rest.splitn(3, |&c| c == b',');
+        let (Some(a), Some(b), Some(_)) = (fields.next(), fields.next(), fields.next()) else { return false };
+        !a.is_empty() && a.iter().all(u8::is_ascii_digit) && !b.is_empty() && b.iter().all(u8::is_ascii_digit)
+    })
+}
+
+/// Fixed stream witnessing the known finding C04-lcov2-fn-end-line on every run: tracefiles as lcov
+/// 2.x writes them (`FN:<start>,<end>,<name>`). The oracle states the property: the file is accepted,
+/// the function is named <name>, starts at <start> and is executed iff some FNDA of it has a
+/// non-zero count. The inputs also go to the model tie (model = code).
+fn lcov2_stream(rep: &mut Report, reqs: &mut Vec<String>, impl_out: &mut Vec<String>, inputs: &mut Vec<(Vec<u8>, bool)>) {
+    // (file, crlf, records): Fn(start, end, name) / Fnda(count, name) / Da(line, count)
+    enum R { Fn(u32, u32, &'static str), Fnda(u64, &'static str), Da(u32, u64) }
+    let files: Vec<(&str, bool, Vec<R>)> = vec![
+        ("a.c", false, vec![R::Fn(1, 5, "f"), R::Fnda(1, "f"), R::Da(1, 1)]),
+        ("a.c", false, vec![R::Fn(1, 5, "f"), R::Da(1, 1)]),
+        ("src/x.cpp", false, vec![R::Fn(3, 9, "foo(int, char)"), R::Fnda(0, "foo(int, char)"), R::Da(3, 0)]),
+        ("b.c", true, vec![R::Fnda(2, "g"), R::Fn(10, 12, "g"), R::Fn(20, 25, "h"), R::Fnda(0, "h"), R::Da(10, 2)]),
+        ("c.c", false, vec![R::Fn(7, 7, "2,init"), R::Fnda(4, "2,init")]),
+    ];
+    for (sf, crlf, recs) in files {
+        let eol = if crlf { "\r\n" } else { "\n" };
+        let mut text = format!("TN:{}SF:{}{}", eol, sf, eol);
+        let mut want = grcov::CovResult::default();
+        for r in &recs {
+            match r {
+                R::Fn(st, en, n) => {
+                    text.push_str(&format!("FN:{},{},{}{}", st, en, n, eol));
+                    let executed = recs.iter().any(|q| matches!(q, R::Fnda(c, m) if m == n && *c != 0));
+                    want.functions.insert(n.to_string(), grcov::Function { start: *st, executed });
+                }
+                R::Fnda(c, n) => text.push_str(&format!("FNDA:{},{}{}", c, n, eol)),
+                R::Da(l, c) => {
+                    text.push_str(&format!("DA:{},{}{}", l, c, eol));
+                    *want.lines.entry(*l).or_insert(0) += *c;
+                }
+            }
+        }
+        text.push_str(&format!("end_of_record{}", eol));
+        let bytes = text.into_bytes();
+        let spec = format!("ok {}", show_results_ordered(&[(sf.to_string(), want)])).trim_end().to_string();
+        let got = run_impl(&bytes, true);
+        rep.count("lcov2.fn_with_end_line");
+        rep.case(&hex(&bytes), true);
+        if got != spec {
+            let finding = if has_fn_with_end_line(&bytes) { Some("C04-lcov2-fn-end-line") } else { None };
+            rep.fail(
+                "oracle",
+                finding,
+                "a tracefile with lcov 2.x function records FN:<start>,<end>,<name> is not read to the function <name> starting at <start>".into(),
+                json!({"op": "lcov.fidelity", "branch": true, "crlf": crlf,
+                       "tracefile_hex": hex(&bytes), "tracefile": String::from_utf8_lossy(&bytes),
+                       "impl": got, "spec": spec}),
+            );
+        }
+        reqs.push(format!("lcov.parse 1 {}", hex(&bytes)));
+        impl_out.push(got);
+        inputs.push((bytes, true));
+    }
+}
+
 pub fn run(rep: &mut Report) {
     rep.rule = "ASTs of 1-4 sections (shuffled DA/FN/FNDA/BRDA records - FNDA before or after its FN -, duplicates, \
                 DA checksum fields (record-like, number-like, with commas, base64 MD5), '-'/0/positive taken counts, \
                 several blocks per line, negative counts, other lcov record types, blank lines, LF/CRLF, UTF-8 \
                 names with commas) rendered and parsed; the same with one FNDA made undeclared (must be Err(Parse)); \
+                five fixed lcov 2.x tracefiles (FN:<start>,<end>,<name>; known finding C04-lcov2-fn-end-line); \
                 plus a malformed stream (mutated renders, random lcov-ish bytes) for the tie; non-trivial = the file \
                 has ≥1 DA and (≥1 BRDA or ≥1 FN) or is malformed; distinct = distinct input bytes"
         .to_string();
@@ -251,6 +318,8 @@ pub fn run(rep: &mut Report) {
         impl_out.push(out);
         inputs.push((bytes, branch));
     }
+    // ---- lcov 2.x function records (known finding, witnessed on every run) -----------------------
+    lcov2_stream(rep, &mut reqs, &mut impl_out, &mut inputs);
     // ---- malformed stream ---------------------------------------------------------------------
     let m = rep.budget(6_000, 30);
     for _ in 0..m {
@@ -295,6 +364,14 @@ fn utf8_tie(rep: &mut Report, rng: &mut Rng) {
         rep.count(if std::str::from_utf8(&bs).is_ok() { "utf8.valid" } else { "utf8.invalid" });
         reqs.push(format!("utf8lossy {}", hex(&bs)).trim_end().to_string());
         outs.push(out);
+        // Lcov.validUtf8 (the hypothesis of C04_names_preserved) against std::str::from_utf8
+        reqs.push(format!("utf8valid {}", hex(&bs)).trim_end().to_string());
+        outs.push(if std::str::from_utf8(&bs).is_ok() { "1".to_string() } else { "0".to_string() });
+        // the property clause on the implementation: well-formed names come back byte for byte
+        if std::str::from_utf8(&bs).is_ok() && String::from_utf8_lossy(&bs).as_bytes() != &bs[..] {
+            rep.fail("oracle", None, "from_utf8_lossy changed a well-formed UTF-8 name".into(),
+                     json!({"op": "utf8lossy", "request": format!("utf8lossy {}", hex(&bs))}));
+        }
     }
     let model = run_model(&reqs, &rep.workdir, "utf8");
     for i in 0..reqs.len() {
@@ -303,7 +380,7 @@ fn utf8_tie(rep: &mut Report, rng: &mut Rng) {
             rep.fail(
                 "disagreement",
                 None,
-                "String::from_utf8_lossy differs from Lcov.utf8Lossy".into(),
+                "String::from_utf8_lossy / str::from_utf8 differ from Lcov.utf8Lossy / Lcov.validUtf8".into(),
                 json!({"op": "utf8lossy", "request": reqs[i], "impl": outs[i], "model": model[i]}),
             );
         }
